@@ -504,6 +504,25 @@ theorem pick_false_mergeBlocks_prefix : ∀ (p : List Bool) (blocks : List (List
       cases blocks <;> rfl
     exact ⟨k + 1, by simp [this, pick, hk]⟩
 
+theorem sublist_flatten_mergeBlocks : ∀ (p : List Bool) (blocks : List (List α)) (B : List α),
+    p.count false = B.length → blocks.length = p.count true →
+    B.Sublist (mergeBlocks false p blocks B).flatten
+  | [], blocks, B, hB, _ => by
+    have : B = [] := by simpa using hB.symm
+    simp [this]
+  | true :: p, [], B, _, h => by simp at h
+  | true :: p, blk :: as, B, hB, h => by
+    have ih := sublist_flatten_mergeBlocks p as B (by simpa using hB) (by simpa using h)
+    simp only [mergeBlocks, Bool.false_and, Bool.false_eq_true, if_false, List.flatten_cons]
+    exact ih.trans (List.sublist_append_right _ _)
+  | false :: p, blocks, [], hB, _ => by simp at hB
+  | false :: p, blocks, b :: bs, hB, h => by
+    have ih := sublist_flatten_mergeBlocks p blocks bs (by simpa using hB) (by simpa using h)
+    have : mergeBlocks false (false :: p) blocks (b :: bs) = [b] :: mergeBlocks false p blocks bs := by
+      cases blocks <;> rfl
+    simp only [this, List.flatten_cons, List.singleton_append]
+    exact List.Sublist.cons_cons b ih
+
 theorem ctxOr_d (v : Item) (k : Nat) : (v.ctxOr k).d = v.dict := by
   unfold Item.ctxOr Item.dict; cases v.ctx <;> rfl
 
@@ -599,12 +618,20 @@ theorem png_selected_fresh (cfg : PngCfg) (fs : FS) (v : Item) (h : pngSel v = t
   repeat' split
   all_goals first | exact allFresh_nil _ | exact allFresh_mk _ _ _ _
 
-theorem histToGraph_selected_fresh (s : σ) (v : Item) (h : histToGraphSel v = true) :
-    AllFresh v (histToGraphStep s v).out := by
+theorem histToGraph_selected_fresh (cfg : H2GCfg) (s : σ) (v : Item) (h : histToGraphSel v = true) :
+    AllFresh v (histToGraphStep cfg s v).out := by
   unfold histToGraphSel at h
   simp only [Bool.and_eq_true] at h
   simp only [histToGraphStep, ctxOr_d, h.1, h.2, Bool.not_true, Bool.or_self, Bool.false_eq_true, if_false]
-  exact allFresh_mk _ _ _ _
+  have h1 := h.1
+  revert h1
+  generalize v.data = data
+  intro h1
+  cases data <;> simp only [Data.isHist] at h1 <;> try contradiction
+  dsimp only
+  split
+  · exact allFresh_nil _
+  · exact allFresh_mk _ _ _ _
 
 theorem iterateBins_selected_fresh (sb : BinKind → Bool) (s : σ) (v : Item) (h : iterateBinsSel sb v = true) :
     AllFresh v (iterateBinsStep sb s v).out := by
@@ -759,5 +786,51 @@ theorem pdfRun_err (ow : Bool) (sch : Sched) (fs : FS) (xs : List Item) :
   cases h : (loop (pdfStep ow sch) ⟨fs, [], 0, 0⟩ xs).err <;> simp [pdfRun, h]
 
 end
+
+/-! ## the heap of context objects (aliasing) -/
+
+theorem Heap.get_set_ne (h : Heap) (k t : Tok) (d : Dict) (hne : k ≠ t) : (h.set k d).get t = h.get t := by
+  induction h with
+  | nil => simp [Heap.set, Heap.get, hne]
+  | cons x r ih =>
+    obtain ⟨t', d'⟩ := x
+    by_cases h1 : t' = k
+    · subst h1
+      simp [Heap.set, Heap.get, hne]
+    · by_cases h2 : t' = t
+      · subst h2
+        simp [Heap.set, Heap.get, h1]
+      · simp [Heap.set, Heap.get, h1, h2, ih]
+
+theorem Heap.get_record_none (t : Tok) : ∀ (outs : List Item) (h : Heap), h.get t = none →
+    (∀ y ∈ outs, ∀ c, y.ctx = some c → c.tok ≠ t) → (h.record outs).get t = none
+  | [], h, h0, _ => h0
+  | y :: ys, h, h0, hy => by
+    unfold Heap.record
+    simp only [List.foldl_cons]
+    cases hc : y.ctx with
+    | none =>
+      simp only
+      exact Heap.get_record_none t ys h h0 (fun z hz => hy z (List.mem_cons_of_mem _ hz))
+    | some c =>
+      simp only
+      apply Heap.get_record_none t ys _ _ (fun z hz => hy z (List.mem_cons_of_mem _ hz))
+      rw [Heap.get_set_ne _ _ _ _ (hy y (by simp) c hc)]
+      exact h0
+
+theorem Item.refresh_of_none (h : Heap) (v : Item) (hv : ∀ c, v.ctx = some c → h.get c.tok = none) :
+    v.refresh h = v := by
+  unfold Item.refresh
+  cases hc : v.ctx with
+  | none => rfl
+  | some c => simp [hv c hc]
+
+
+theorem ctxToks_cons_none (v : Item) (vs : List Item) (h : v.ctx = none) : ctxToks (v :: vs) = ctxToks vs := by
+  simp [ctxToks, h]
+
+theorem ctxToks_cons_some (v : Item) (vs : List Item) (c : Ctx) (h : v.ctx = some c) :
+    ctxToks (v :: vs) = c.tok :: ctxToks vs := by
+  simp [ctxToks, h]
 
 end Lena.C10
